@@ -7,4 +7,5 @@ MODULES = {
     "C04": "harness.c04_address",
     "C05": "harness.c05_frame",
     "C12": "harness.c12_events",
+    "C14": "harness.c14_colour",
 }
